@@ -147,6 +147,10 @@ func (l *lexer) run() {
 	for action := l.lexPipeline; action != nil; {
 		action = action()
 	}
+	if l.eof && l.heredoc.exists() {
+		// here-document delimited by EOF
+		l.readHeredocs()
+	}
 }
 
 func (l *lexer) lexPipeline() action {
